@@ -4,7 +4,7 @@ unedited test-suite. Prints the ones that do not. Scratch clones are removed."""
 import sys,subprocess,shutil,os,tempfile,glob,concurrent.futures
 here=os.path.dirname(os.path.dirname(os.path.abspath(__file__)))
 env=dict(os.environ, GOFLAGS="-mod=mod", GOPROXY="off", GOSUMDB="off", GOTOOLCHAIN="local", GOWORK="off")
-dirs=[os.path.abspath(a) for a in sys.argv[1:]] or sorted(glob.glob(here+"/benign/*"))
+dirs=[os.path.abspath(a) for a in sys.argv[1:]] or sorted(d for d in glob.glob(here+"/benign/*") if os.path.isdir(d))
 def one(dd):
     d=tempfile.mkdtemp(prefix="anyvb-")
     try:
